@@ -29,6 +29,8 @@ def formulations(tier, refs_quick=("straight", "helix"), harsch=True):
     out = []
     for nel in nels:
         for ref in refs:
+            if nel == 3 and ref not in ("straight_pose", "helix"):
+                continue  # budget: three elements only on one straight and one curved reference
             # interpolation varies fastest so that a short prefix of the list already contains every
             # interpolation and both formulations (cheap --limit runs for mutant demonstrations)
             for cons in CONS:
